@@ -67,7 +67,7 @@ def function_case(draw):
     K = draw(st.integers(2, 4))
     T = draw(st.one_of(st.integers(2 * K + 1, 60), st.integers(2 * K + 1, 60), st.integers(2 * K + 1, 60),
                        st.sampled_from([4097, 4700, 8200, 9001])))
-    return {"nw": nw if T < 1000 else min(nw, 3), "K": K, "T": T, "seed": draw(st.integers(0, 2 ** 32 - 1)), "min_size": draw(st.sampled_from([1, 1, 2])), "noise_scale": draw(st.sampled_from([1.0, 1.0, 1.0, 1e-3, 1e-5])),
+    return {"nw": nw if T < 1000 else min(nw, 3), "K": K, "T": T, "seed": draw(st.integers(0, 2 ** 32 - 1)), "min_size": draw(st.sampled_from([1, 1, 2])), "noise_scale": draw(st.sampled_from([1.0, 1.0, 1.0, 1e-3, 1e-5])), "data_dtype": draw(st.sampled_from(["float64", "float64", "float64", "int64", "int32"])),
             "col_offsets": draw(st.sampled_from(["none", "small", "large"])),
             "shift_scale": draw(st.sampled_from([0.5, 10.0, 1000.0]))}
 
@@ -92,8 +92,12 @@ def _build(case, shift=None):
     if case["col_offsets"] != "none":
         data = data + rng.normal(0, 5 if case["col_offsets"] == "small" else 500, size=nw)
     sh = rng.normal(0, case["shift_scale"], size=nw)
+    if case.get("data_dtype", "float64") != "float64":
+        sh = np.round(sh)
     if shift:
         data = data + sh
+    if case.get("data_dtype", "float64") != "float64":
+        data = np.round(data * 4.0).astype(case["data_dtype"])        # an integer-typed stacked array
     args = arguments.UserArguments(sparsity_weight=0.1, iteration_limit=1, label_switching_cost=1.0, min_cluster_size=2,
                                    min_meaningful_covariance=0, num_clusters=K, num_processors=1, window_size=1,
                                    biased_covariance=False)
@@ -124,6 +128,8 @@ def execute_function(case, t):
     if sigma < 1:
         t.cls("tiny_within_cluster_dispersion")
     t.cls(f"col_offsets_{case['col_offsets']}")
+    if case.get("data_dtype", "float64") != "float64":
+        t.cls("integer_typed_data")
     if case["T"] > 4096:
         t.cls("more_than_4096_windows")
     if min(labels.count(k) for k in range(K)) == 1:
